@@ -1,4 +1,4 @@
-(* Executable CHECKER of the pool discipline of Spec/PoolSpec.v (property C04) and its harness
+(* Executable CHECKER of the pool discipline of Spec/PoolTraceSpec.v (property C04) and its harness
    entry point.
 
    The harness engine poolmux records, per scenario on the real library, a trace of Get / Put
@@ -21,7 +21,7 @@
                            [2] malformed input
    No proofs in this file. *)
 From Coq Require Import ZArith List Bool.
-From Verif Require Import Base.Wrap Base.Wire Spec.PoolSpec.
+From Verif Require Import Base.Wrap Base.Wire Spec.PoolTraceSpec.
 Import ListNotations.
 Local Open Scope Z_scope.
 
